@@ -170,6 +170,65 @@ def rule_siblings(ctx):
               detail={"calls": names})
 
 
+def _sx(s):
+    """parse a canonical S-expression into nested lists"""
+    toks = re.findall(r"\(|\)|[^\s()]+", s)
+    def rd(i):
+        if toks[i] == "(":
+            out = []
+            i += 1
+            while toks[i] != ")":
+                x, i = rd(i)
+                out.append(x)
+            return out, i + 1
+        return toks[i], i + 1
+    try:
+        return rd(0)[0]
+    except IndexError:
+        return s
+
+
+def _rev_parity(tree, var):
+    """number of `rev` applications (mod 2) on the path from the whole expression down to the first occurrence of var; None if absent"""
+    if isinstance(tree, str):
+        return 0 if tree == var else None
+    head = tree[0] if tree and isinstance(tree[0], str) else ""
+    for sub in tree[1:] if isinstance(tree[0], str) else tree:
+        r = _rev_parity(sub, var)
+        if r is not None:
+            return (r + (1 if head.endswith("::rev") else 0)) % 2
+    return None
+
+
+def rule_copattern_tuples(ctx):
+    rule = "copattern-tuples"
+    facts = ctx.facts
+    ctx.rule(rule, "the checker assembles the argument tuple (combine_values_k) and the tuple pattern of every clause (combine_patterns) "
+                   "of a multi-argument copattern the same way: tail = the LAST element (one reversal, next()), items = the other "
+                   "elements in their ORIGINAL order (an even number of reversals): position i of the pattern meets argument i")
+    base = "zydeco_statics::check::copattern::CopatternElaborator::"
+    got = {}
+    for f, var in (("combine_values_k", "$P2"), ("combine_patterns", "$P2")):
+        fn = base + f
+        h = ctx.need_hir(rule, fn)
+        env = A.ArmEnv()
+        env.strip = True
+        env.bind_params(h)
+        env.absorb(h["body"])
+        cons = [n for n in H.walk(h["body"]) if H.kind(n) == "Call" and (H.callee(n) or "").endswith("zydeco_syntax::ConsN")]
+        if len(cons) != 1:
+            ctx.anchor_lost(rule, "%s: expected one ConsN(items, tail), found %d" % (f, len(cons)))
+            continue
+        # the iterator variable is advanced by next(): flow-sensitive naming is not needed for parity, the reversal is in its definition
+        items = _sx(A.sexpr(cons[0]["args"][0], env))
+        tail = _sx(A.sexpr(cons[0]["args"][1], env))
+        got[f] = (_rev_parity(items, var), _rev_parity(tail, var))
+        ok = got[f] == (0, 1)
+        ctx.check(ok, rule, f, "%s builds ConsN(items, tail) with reversal parity items=%s tail=%s of its input list; expected items in "
+                  "original order (0) and tail = last element (1): the i-th pattern would not meet the i-th argument" % (f, got[f][0], got[f][1]),
+                  facts.bodies()[fn]["loc"], detail={"fn": f, "items_parity": got[f][0], "tail_parity": got[f][1]})
+
+
 def run(ctx):
     ctx.rule("ck-machine", "every arm of Eval for Computation / Value, Assign and the product helpers performs the audited sequence "
                            "of pops, pushes, operand evaluations, environment installs, captures and steps (rules/golden_eval.json)")
@@ -179,6 +238,7 @@ def run(ctx):
     golden.check(ctx, "erasure", "golden_link.json")
     rule_env_flow(ctx)
     rule_siblings(ctx)
+    rule_copattern_tuples(ctx)
     ctx.assume("the audited references are a correct CK machine for CBPV (by inspection of eval.rs / link.rs against the "
                "repository's DESIGN.md); host operations are C06; desugaring order is not covered")
     return {}
